@@ -458,7 +458,12 @@ class Emulator:
             decoder = CachedFetchDecoder(fecher, ADDRESS_SPACE_SIZE)
         else:
             decoder = FetchDecoder(fecher, ADDRESS_SPACE_SIZE)
-        instr = decode(decoder, address, OPCODES)  # type: ignore
+        try:
+            instr = decode(decoder, address, OPCODES)  # type: ignore
+        except AssertionError:
+            # Operand validation asserts mark an invalid encoding (the arch
+            # hooks map them to "not an instruction"); fetch falls back too.
+            instr = None
         if instr is None:
             opcode = self.memory.read_byte(address) & 0xFF
             instr = _FallbackInstruction(opcode)
